@@ -775,6 +775,26 @@ void history_bw(vf::Run& r, const std::vector<Op>& alpha, const std::vector<uint
         r.fail("bw_" + o.key + ":bytes", [&] { return hdesc() + " :: after " + o.name + ": buffer holds " + hexb(buf.p, cap) + ", model " + hexb(m.data(), cap); });
         return;
       }
+      // BufferWriter has no accessor for its cursor: a copy of the writer appends one probe byte, which must land at
+      // the model's cursor (then the byte is restored).  Attributes a wrong advance to the operation that made it.
+      if (cur < cap) {
+        BufferWriter probe = bw;
+        uint8_t saved = buf.p[cur];
+        probe.put_u8((uint8_t)(saved ^ 0x5F));
+        size_t landed = cap;
+        for (size_t i = 0; i < cap; i++)
+          if (buf.p[i] != m[i]) { landed = i; break; }
+        bool only_one = landed < cap && buf.p[landed] == (uint8_t)(m[landed] ^ 0x5F);
+        if (only_one) {
+          buf.p[landed] = m[landed];
+          only_one = !memcmp(buf.p, m.data(), cap);
+        }
+        if (!only_one || landed != cur) {
+          r.fail("bw_" + o.key + ":advance", [&] { return hdesc() + " :: after " + o.name + vf::fmt(": the next appended byte lands at %zu, the cursor should be at %zu", landed, cur); });
+          return;
+        }
+        (void)saved;
+      }
     }
   } catch (const std::exception& e) {
     exc = e.what();
